@@ -59,6 +59,9 @@ func (d *dialogue) raw(line string, spec ...string) string {
 // flag may be left false: Client() switches negotiation on itself (its documentation says so), and the dialogue is the same.
 var capNegFlag = true
 
+// laterNaks: append two refused later requests (CAP NAK) to dialogues that had an acknowledgement
+var laterNaks = false
+
 func capDialogue(wanted, adv []string, saslKind int, reply int, outcome string, prelude ...[]string) Case {
 	p := rigParams{nick: "me", ident: "id", name: "Real", version: "v", quit: "q", split: 450, capNeg: capNegFlag || saslKind == 0, caps: wanted, sasl: "none", newNick: "default"}
 	switch saslKind {
@@ -141,13 +144,24 @@ func capDialogue(wanted, adv []string, saslKind int, reply int, outcome string, 
 				d.raw(":irc.test CAP me ACK :-"+requested[0], fmt.Sprintf("spec19ack %s %s {out}", "none", drv.L([]string{"-" + requested[0]})))
 				allAcks = append(allAcks, "-"+requested[0])
 			}
-			for _, c := range univ[:7] {
-				held := "0"
-				if d.r.conn.HasCapability(c) {
-					held = "1"
+			checkHeld := func() {
+				for _, c := range univ[:7] {
+					held := "0"
+					if d.r.conn.HasCapability(c) {
+						held = "1"
+					}
+					d.cs.Reqs = append(d.cs.Reqs, fmt.Sprintf("?spec19held %s %s %s", drv.L(allAcks), drv.H(c), held))
+					d.cs.Impl = append(d.cs.Impl, "")
 				}
-				d.cs.Reqs = append(d.cs.Reqs, fmt.Sprintf("?spec19held %s %s %s", drv.L(allAcks), drv.H(c), held))
-				d.cs.Impl = append(d.cs.Impl, "")
+			}
+			checkHeld()
+			// later requests that the server refuses change nothing: a NAK naming an enabled capability (asked for again
+			// together with one the server does not know), then a NAK of a request to switch one off - what is held is
+			// still what the latest acknowledgement says
+			if laterNaks && len(acked) > 0 {
+				d.raw(":irc.test CAP me NAK :"+acked[0]+" zz", "spec19end {out}")
+				d.raw(":irc.test CAP me NAK :-"+acked[len(acked)-1], "spec19end {out}")
+				checkHeld()
 			}
 		}
 	}
@@ -158,8 +172,11 @@ func capDialogue(wanted, adv []string, saslKind int, reply int, outcome string, 
 			d.cs.Tag += "/multi-line-LS"
 		}
 	}
+	if laterNaks {
+		d.cs.Desc += " then two later requests refused (NAK)"
+	}
 	d.cs.Key = d.cs.Desc
-	d.cs.Replay = map[string]interface{}{"op": "cap-dialogue", "wanted": wanted, "advertised": adv, "sasl": p.sasl, "reply": reply, "outcome": outcome, "earlier_ls_lines": prelude}
+	d.cs.Replay = map[string]interface{}{"op": "cap-dialogue", "later_naks": laterNaks, "wanted": wanted, "advertised": adv, "sasl": p.sasl, "reply": reply, "outcome": outcome, "earlier_ls_lines": prelude}
 	return d.cs
 }
 
@@ -273,7 +290,9 @@ func c19(c *Ctx) {
 						if c.Quick() && c.R.P(2, 3) {
 							continue
 						}
+						laterNaks = c.R.P(1, 3)
 						cases = append(cases, capDialogue(w, a, sk, reply, oc))
+						laterNaks = false
 					}
 				}
 			}
